@@ -35,8 +35,27 @@ def instances(tier, rng):
         if len(u["edges"]) >= 2:     # keep at least one non-ignored weighted element (the domain of C03/C19)
             extra.append({"ign": [list(rng.choice(u["edges"]))]})
         extra.append({"mode": "node", "ign": [rng.choice(u["nodes"])]})
+        always = []
+        if len(u["edges"]) >= 3:
+            # larger ignore sets (any subset keeps the planted decomposition admissible); in particular everything off one
+            # planted route, so that the ignored part carries flow values the non-ignored part does not have
+            E = [list(e) for e in u["edges"]]
+            always.append({"ign": rng.sample(E, rng.randint(2, len(E) - 1))})
+            keep = {tuple(e) for e in C.route_edges(rng.choice(u["proutes"]))}
+            off = [e for e in E if tuple(e) not in keep]
+            if off and keep:
+                always.append({"ign": off})
+                always.append({"ign": off, "opt": {"optimize_with_greedy": False}})
+                always.append({"ign": off, "opt": rng.choice([{"use_min_gen_set_lowerbound": True}, {"optimize_with_guessed_weights": True},
+                                                              {"use_subgraph_scanning_lowerbound": True},
+                                                              {"use_min_gen_set_lowerbound": True, "use_min_gen_set_lowerbound_partition_constraints": True}])})
+        if len(u["nodes"]) >= 3:
+            keepn = set(rng.choice(u["proutes"]))
+            offn = [v for v in u["nodes"] if v not in keepn]
+            if offn:
+                always.append({"mode": "node", "ign": offn})
         extra.append({"mode": "node", "drop_nw": rng.randrange(len(u["nodes"]))})
-        for cfg in cfgs + (rng.sample(extra, 3) if quick else extra):
+        for cfg in cfgs + (rng.sample(extra, 3) + rng.sample(always, min(3, len(always))) if quick else extra + always):
             r = C.base(u, "MinFlowDecomp", cfg.get("mode", "edge"))
             r["wt"] = "int"
             r["expect_solved"] = True
